@@ -108,6 +108,10 @@ def jobs(tier):
     B(lambda: L.I2cInst(20, 3))
     B(lambda: L.I2cInst(20, 0))
     B(lambda: L.I2cInst(8, 11))
+    B(lambda: L.I2cMasterInst(3))
+    B(lambda: L.I2cMasterInst(1, overlap=0.3))
+    B(lambda: L.I2cMasterInst(2, overlap=0.1, stretch=0.2))
+    B(lambda: L.I2cMasterInst(7, overlap=0.5), cycles=12000 if quick else 80000)
     return H + J
 
 
